@@ -421,8 +421,11 @@ func c08Release(f Frame) {
 // ParseType, then the parse function for that type. tl and n are the reported lengths.
 func (c *c08Ctx) c08ParseOne(p *FrameParser, g c08FrameCfg, data []byte, v protocol.Version) (ft FrameType, f Frame, tl, n int, err error) {
 	c.trans++
+	c.admitFail = false
 	ft, tl, err = p.ParseType(data, g.lvl)
 	if err != nil {
+		// the admission model judges every refusal of ParseType in the whole check
+		c.admitFail = c.checkAdmission(g, data, err)
 		return ft, nil, tl, 0, err
 	}
 	if tl < 0 || tl > len(data) {
@@ -682,9 +685,10 @@ type c08FrameValue struct {
 }
 
 // checkFrameValue: Append, Length prediction, round trip under every level and flag
-// combination (success is demanded at 1-RTT with all extensions negotiated, where every
-// frame type is admissible; wherever else it parses, it must parse to the same value),
-// demanded rejections. Returns the encoding (nil when the encoder refused).
+// combination (success is demanded wherever the admission model c08MustAdmit says the frame
+// may be sent: level admits the type, the type's own extension negotiated; wherever else it
+// parses, it must parse to the same value), demanded rejections. Returns the encoding (nil
+// when the encoder refused).
 func (c *c08Ctx) checkFrameValue(x c08FrameValue, cfgs []c08FrameCfg) []byte {
 	c.execs++
 	kind := c08FrameKind(x.f)
@@ -719,7 +723,11 @@ func (c *c08Ctx) checkFrameValue(x c08FrameValue, cfgs []c08FrameCfg) []byte {
 			c.guard("FrameParser["+g.String()+"]", e, func() {
 				p := c.parser(g)
 				_, f, tl, n, err := c.c08ParseOne(p, g, e, v)
-				must := x.valid && g.lvl == protocol.Encryption1RTT && g.dg && g.rsa && g.af && g.exp == protocol.AckDelayExponent
+				// demanded wherever the admission model says the frame may be sent (its own
+				// extension negotiated, the other flags arbitrary); e is the encoder's output,
+				// so its first varint is the (minimally encoded) frame type
+				typ, _, _ := c08RefFirstType(e)
+				must := x.valid && c08MustAdmit(typ, g)
 				switch {
 				case x.reject != "":
 					if err == nil {
@@ -727,8 +735,11 @@ func (c *c08Ctx) checkFrameValue(x c08FrameValue, cfgs []c08FrameCfg) []byte {
 					}
 					c.outcome(g.lvl.String() + "|rejected-invalid:" + kind)
 				case err != nil || f == nil:
-					if must {
+					if must && !c.admitFail { // a refusal by ParseType is already reported as refused-admissible:<type>@<level>
 						c.fail("roundtrip-reject:"+kind, "%s: %s encoded as %x does not parse: %v", g, c08FrameString(x.f), e, err)
+					}
+					if must {
+						c.outcome(g.lvl.String() + "|REFUSED-ADMISSIBLE:" + kind)
 					}
 					c.outcome(g.lvl.String() + "|value-not-parsed:" + kind + ":" + c.errClass(err))
 				case tl+n != len(e):
